@@ -260,6 +260,9 @@ class LangServer:
         matching_symbols = []
         query = request["params"]["query"].lower()
         for candidate in find_in_workspace(self.obj_tree, query):
+            # Unnamed interface blocks etc. only have an internal placeholder name
+            if candidate.name.startswith("#"):
+                continue
             tmp_out = {
                 "name": candidate.name,
                 "kind": map_types(candidate.get_type()),
